@@ -562,10 +562,16 @@ func c06NoHang(c *Check, fns []*ssa.Function) {
 					bad = "blocking select"
 				}
 			case *ssa.Send:
-				bad = "channel send"
+				// a token put into a semaphore channel held in a struct field is
+				// decided by the pairing / nesting rules below
+				if _, _, _, isField := loadedField(unspill(x.Chan)); !isField {
+					bad = "channel send"
+				}
 			case *ssa.UnOp:
 				if x.Op == token.ARROW {
-					bad = "channel receive"
+					if _, _, _, isField := loadedField(unspill(x.X)); !isField {
+						bad = "channel receive"
+					}
 				}
 			case ssa.CallInstruction:
 				if o := calleeObj(x); o != nil && o.Pkg() != nil && o.Pkg().Path() == "sync" {
@@ -580,6 +586,15 @@ func c06NoHang(c *Check, fns []*ssa.Function) {
 			}
 		})
 	}
+	c06StrictDecode(c)
+	set := map[*ssa.Function]bool{}
+	for _, f := range fns {
+		set[f] = true
+		for _, a := range withClosures(f) {
+			set[a] = true
+		}
+	}
+	c.Counts["blocking_resources_on_pipeline"] = blockingResources(c, "RESOURCE-PAIR", "HELD-ACROSS-NESTING", set)
 	c.Okf("NO-HANG", "scan", "-", "%d pipeline functions scanned for channel operations, blocking select, WaitGroup/Cond waits: %d found", len(fns), n)
 }
 
@@ -614,4 +629,63 @@ func errSource(v ssa.Value) string {
 		break
 	}
 	return v.Name()
+}
+
+// c06StrictDecode: a compiled-model file in JSON or text form that is really
+// some other document has to be refused. The protobuf JSON/text decoders refuse
+// unknown fields unless told otherwise, so no decode option used on the input
+// side may switch DiscardUnknown on (with it, a well-formed foreign document
+// decodes to an empty module and the compile succeeds silently).
+func c06StrictDecode(c *Check) {
+	p := c.P
+	pkg := p.SSAPkgs[repoMod+"/pkg/pbutil"]
+	if pkg == nil {
+		c.Undecidedf("STRICT-DECODE", "pkg/pbutil", "-", "package not found: unresolved anchor")
+		return
+	}
+	isDecodePkg := func(path string) bool {
+		return path == "google.golang.org/protobuf/encoding/protojson" || path == "google.golang.org/protobuf/encoding/prototext"
+	}
+	var fns []*ssa.Function
+	for _, m := range pkg.Members {
+		if f, ok := m.(*ssa.Function); ok {
+			fns = append(fns, withClosures(f)...)
+		}
+	}
+	nDec := 0
+	var lax []ssa.Instruction
+	for _, f := range fns {
+		if strings.HasSuffix(p.fnFile(f), "_test.go") {
+			continue
+		}
+		eachInstr(f, func(_ *ssa.BasicBlock, i ssa.Instruction) {
+			switch x := i.(type) {
+			case ssa.CallInstruction:
+				if o := calleeObj(x); o != nil && o.Pkg() != nil && isDecodePkg(o.Pkg().Path()) && o.Name() == "Unmarshal" {
+					nDec++
+				}
+			case *ssa.Store:
+				own, fld, _, ok := fieldOfAddr(x.Addr)
+				if !ok || own == nil || own.Obj().Pkg() == nil || !isDecodePkg(own.Obj().Pkg().Path()) || own.Obj().Name() != "UnmarshalOptions" || fld != "DiscardUnknown" {
+					return
+				}
+				if cv, ok := x.Val.(*ssa.Const); ok && cv.Value != nil && cv.Value.String() == "false" {
+					return
+				}
+				lax = append(lax, i)
+			}
+		})
+	}
+	c.Counts["json_text_decode_calls"] = nDec
+	if nDec < 2 {
+		c.Undecidedf("STRICT-DECODE", "decoders", "-", "only %d JSON/text decode calls found in pkg/pbutil: unresolved anchor", nDec)
+		return
+	}
+	if len(lax) == 0 {
+		c.Okf("STRICT-DECODE", "pkg/pbutil|unknown fields refused", p.pos(fns[0].Pos()), "%d JSON/text decode calls; no decode option in the package switches DiscardUnknown on", nDec)
+		return
+	}
+	for _, i := range lax {
+		c.Flagf("STRICT-DECODE", "pkg/pbutil|unknown fields refused", p.pos(i.Pos()), "a decode option with DiscardUnknown switched on is built here: a well-formed JSON/text document of another schema (a Swagger file named x.pb.json) decodes to an empty module and the compile succeeds without naming the file")
+	}
 }
